@@ -23,6 +23,9 @@ numeric = Union[int, float]
 
 TACTICS_ORDER = [1, 2, 3, 4, 5]  # noqa: WPS407
 
+# Slack granted to a floating-point LP optimum when it is compared with a bound.
+LP_TOLERANCE = 1e-8
+
 
 class PolyhedralTerm(Term):
     """Polyhedral terms are linear inequalities over a list of variables."""
@@ -1116,7 +1119,7 @@ class PolyhedralTermList(TermList):  # noqa: WPS338
                 is_refinement = False
                 break
             else:
-                if -res["fun"] <= b_temp:  # noqa: WPS309
+                if -res["fun"] <= b_temp + LP_TOLERANCE:  # noqa: WPS309
                     logging.debug("Redundant constraint")
                 else:
                     is_refinement = False
